@@ -16,7 +16,7 @@ TECHNIQUE = ('explicit-state BFS over fetch histories on the real LogicalRecordI
              'content model and its file reads checked against the layout map')
 RULE = ('files: C01 producer restricted to layouts with multi-segment records and >= 2 visible records; per file a BFS '
         'whose operations are fetch(record, offset, length) over a grid built from that record\'s segment boundaries, '
-        'plus a full sequential read, a walk over the visible records, the validate() method of the index, the per-visible-record segment iterator and leaving / re-entering the same index object; state = (file.tell, visible record pos/len, segment header pos/len/attributes/type); '
+        'plus a full sequential read, a walk over the visible records, the validate() method of the index, the per-visible-record segment iterator, leaving / re-entering the same index object, a shallow copy read after the original left, and fetches whose offset / length are numpy integers; state = (file.tell, visible record pos/len, segment header pos/len/attributes/type); '
         'non-trivial case = a file; outcome = hash of (file, returned bytes)')
 ASSUMPTIONS = ['the index description\'s length field is not asserted (documented to include pad bytes)',
                'offset/length follow Python slice semantics on the full payload; negative offsets are outside the API']
@@ -125,6 +125,9 @@ def op_menu(recs, lay):
         for off in sorted({0, 1, min(bounds[1] + 1, total)}):
             for ln in sorted({-1, 1, total}):
                 ops.append(['fetchpos', i, off, ln])
+        # offset and length held in numpy integers (taken from an array of positions): the same slice
+        for off, ln in ((1, 1), (0, total), (min(bounds[1] + 1, total), -1)):
+            ops.append(['fetchnp', i, off, ln])
     # requests the index may refuse however it likes (outside the statement): what follows them must still be exact
     ops.append(['badfetch', len(recs), 0, -1])
     ops.append(['badfetch', 0, -3, 2])
@@ -133,6 +136,7 @@ def op_menu(recs, lay):
         ops.append(['seqpeek', n])
     ops.append(['seqother'])
     ops.append(['reenter'])
+    ops.append(['copied'])
     ops.append(['vrs'])
     ops.append(['validate'])
     ops.append(['frags'])
@@ -256,6 +260,23 @@ def step(system, op, check):
         except Exception as err:  # noqa
             return [({'kind': 'reenter_raises', 'exc': type(err).__name__}, '%s: %s' % (type(err).__name__, err))]
         return check_index(system) if check else []
+    if op[0] == 'copied':
+        # a shallow copy of the entered index (kept by a caller, put in a list) still lists every record after the original has left
+        # its 'with' block; the original is then entered again
+        import copy
+        try:
+            twin = copy.copy(system.index)
+            system.index._exit()
+
+            class _S:
+                pass
+            view = _S()
+            view.index, view.recs, view.lay = twin, system.recs, system.lay
+            found = check_index(view) if check else []
+            system.index._enter()
+        except Exception as err:  # noqa
+            return [({'kind': 'reenter_raises', 'exc': type(err).__name__, 'copied': True}, 'copy, leave, enter again: %s: %s' % (type(err).__name__, err))]
+        return [(dict(sig, copy_after_original_left=True), 'a copy of the index, after the original left its with block: ' + msg) for sig, msg in found]
     how, i, off, ln = op
     if how == 'badfetch':
         try:
@@ -265,7 +286,10 @@ def step(system, op, check):
         return []
     system.f.reset_log()
     try:
-        if how == 'fetchpos':
+        if how == 'fetchnp':
+            import numpy as np
+            fld = system.index.get_file_logical_data(i, np.int64(off), np.int64(ln))
+        elif how == 'fetchpos':
             fld = system.index.get_file_logical_data_at_position(system.index[i].position, off, ln)
         else:
             fld = system.index.get_file_logical_data(i, off, ln)
